@@ -1504,8 +1504,47 @@ class SymWalker:
                     continue
                 self._effect("call", st, reach, call=subbed, raw=n, top=(top and n is e))
                 f = n.func
+                if isinstance(f, ast.Attribute) and f.attr in MUTATORS and isinstance(f.value, (ast.Name, ast.Attribute)):
+                    self._stale(f.value)
                 if isinstance(f, ast.Attribute) and isinstance(f.value, ast.Name) and f.attr in MUTATORS and f.value.id in self.env:
                     self.env.pop(f.value.id, None)
+
+    def _stale(self, recv):
+        """the receiver is changed in place: what the store holds ABOUT it (a length taken before, an element read before) keeps
+        describing the object as it was -- those values now name `recv@k`, so that `len(X)` read after `X.add(..)` is not the
+        term that was stored before it"""
+        t = norm(recv)
+
+        def tagged_receivers(val):
+            # the receiver of a call that carries its own evaluation tag (vm.pop(__n=2)) is part of that call's identity
+            return {id(c.func.value) for c in ast.walk(val) if isinstance(c, ast.Call) and isinstance(c.func, ast.Attribute) and any(k.arg == "__n" for k in c.keywords)}
+
+        def observes(val):
+            skip = tagged_receivers(val)
+            return any(isinstance(x, (ast.Name, ast.Attribute)) and isinstance(getattr(x, "ctx", None), ast.Load) and id(x) not in skip and norm(x) == t for x in ast.walk(val))
+        users = [name for name, val in self.env.items() if isinstance(name, str) and not name.startswith("\0") and isinstance(val, ast.AST) and name != t and observes(val)]
+        if not users:
+            return
+        key = "\0mut:" + t
+        prev = self.env.get(key)
+        k = (prev.value if isinstance(prev, ast.Constant) and isinstance(prev.value, int) else 0) + 1
+        self.env[key] = ast.Constant(k)
+        tag = ast.Name("%s@%d" % (t, k), ast.Load())
+
+        class R(ast.NodeTransformer):
+            def __init__(s_, skip):
+                s_.skip = skip
+
+            def visit_Name(s_, x):
+                return copy.deepcopy(tag) if isinstance(x.ctx, ast.Load) and id(x) not in s_.skip and norm(x) == t else x
+
+            def visit_Attribute(s_, x):
+                if isinstance(x.ctx, ast.Load) and id(x) not in s_.skip and norm(x) == t:
+                    return copy.deepcopy(tag)
+                return s_.generic_visit(x)
+        for name in users:
+            val = copy.deepcopy(self.env[name])
+            self.env[name] = R(tagged_receivers(val)).visit(val)
 
 
 def canon_loop_header(target, it):
